@@ -72,7 +72,7 @@ fn s_strip<const N: usize>() {
     let (v, len) = sym_arr::<N>();
     // reference, literally from the statement: delete TAB/LF/CR/SP outside
     // character classes, where classes are those of the text that remains
-    let mut want: BVec<8> = BVec::new();
+    let mut want: BVec<12> = BVec::new();
     let mut esc = false;
     let mut depth: i32 = 0;
     let mut negative = false;
@@ -112,7 +112,7 @@ fn s_strip<const N: usize>() {
     kani::cover!(kept_ws_in_class, "whitespace inside a class kept");
     kani::cover!(N < 4 || (len >= 3 && v[0] == '\\' && is_xws(v[1]) && v[2] == '[' && removed >= 2), "escape split from its bracket by whitespace, more whitespace after");
     kani::cover!(len == N && removed == 0 && v[0] == '\u{c}', "form feed is not pattern whitespace");
-    let mut pat: BVec<8> = BVec::new();
+    let mut pat: BVec<12> = BVec::new();
     let mut i = 0;
     while i < N {
         if i < len {
@@ -299,6 +299,15 @@ std_stubs! { #[kani::unwind(10)] pub(crate) fn s_strip_n6() { s_strip::<6>() } }
 //@ bound: the x-flag stripper block of ReCompiler::compile (verbatim slice; Vec -> BVec stand-in) on EVERY pattern text of <= 8 chars over all scalar values without an unmatched ']': output = input minus TAB/LF/CR/SP at class depth 0 of the stripped text; nothing else removed
 //@ encodes: ReCompiler::compile(x-flag-stripper-slice)
 std_stubs! { #[kani::unwind(12)] pub(crate) fn s_strip_n8() { s_strip::<8>() } }
+
+//@ harness: s_strip_n11
+//@ props: C14
+//@ tier: thorough
+//@ cost: 900
+//@ slice: c14_strip
+//@ bound: the x-flag stripper block of ReCompiler::compile (verbatim slice; Vec -> BVec stand-in) on EVERY pattern text of <= 11 chars over all scalar values without an unmatched ']': output = input minus TAB/LF/CR/SP at class depth 0 of the stripped text; nothing else removed
+//@ encodes: ReCompiler::compile(x-flag-stripper-slice)
+std_stubs! { #[kani::unwind(15)] pub(crate) fn s_strip_n11() { s_strip::<11>() } }
 
 //@ harness: s_expand_n4
 //@ props: C15 C05
